@@ -42,3 +42,18 @@ Record iban_cfg := {
   ic_alphabet : text;              (* checksum._alphabet *)
   ic_components : list text;       (* domain.Component values in definition order *)
 }.
+
+(* BIC ---------------------------------------------------------------------------------------- *)
+Inductive bstep := BLength | BStructure | BCountry.
+
+Record bic_cfg := {
+  bc_steps : list bstep;
+  bc_lengths : list Z;           (* len(self) not in (...) *)
+  bc_method : remethod;          (* _validate_structure: regex.<method>(str(self)) *)
+  bc_iso : repat;                (* _bic_iso9362_re *)
+  bc_swift : repat;              (* _bic_swift_re *)
+  bc_bank : Z * Z;               (* slice bounds of the four parts *)
+  bc_country : Z * Z;
+  bc_location : Z * Z;
+  bc_branch : Z * Z;
+}.
